@@ -75,6 +75,12 @@ func main() {
 				fn = exprStr(fd.Recv.List[0].Type) + "." + fn
 			}
 			ast.Inspect(fd.Body, func(nd ast.Node) bool {
+				// the scheduling hooks of the verif build are not part of the library: nothing inside them is mutated
+				if ce, ok := nd.(*ast.CallExpr); ok {
+					if id, ok := ce.Fun.(*ast.Ident); ok && (id.Name == "verifYield" || id.Name == "verifSpawn") {
+						return false
+					}
+				}
 				switch x := nd.(type) {
 				case *ast.ExprStmt:
 					if _, ok := x.X.(*ast.CallExpr); ok {
